@@ -26,7 +26,7 @@ pub fn check() -> Check {
 }
 
 fn total_cases(t: Tier) -> u64 {
-    t.pick(3200, 60_000)
+    t.pick(30_000, 600_000)
 }
 
 fn run(c: &Check, tier: Tier, seed: u64, t0: Instant) -> i32 {
@@ -91,6 +91,7 @@ fn episode(ctx: &Ctx, case: u64, out: &mut Out) -> Result<(), (Fail, String)> {
 
 fn worker(ctx: &Ctx, out: &mut Out) {
     for case in ctx.cases(total_cases(ctx.tier)) {
+        ctx.checkpoint(out);
         guarded(ctx, out, case, "episode", |out| {
             if let Err((f, tail)) = episode(ctx, case, out) {
                 out.violation(&f.sig, format!("case {}: {}", case, f.desc), ctx.replay(case, json!({"last_ops": tail})));
